@@ -1394,6 +1394,9 @@ func coordRunCheck(t *testing.T, id string, mk func() coordOracle, rule string, 
 	deadline := vh.Deadline().Add(-10 * time.Second)
 	plan := coordPlan()
 	var runsInfo []map[string]any
+	for _, cfg := range plan.NoMergeRuns { // first, so that a deadline cannot skip it (shard 0 only, small)
+		coordCrossCheck(t, rep, cfg, mk, deadline)
+	}
 	for _, cfg := range plan.Runs {
 		res := coordExplore(t, rep, cfg, mk, deadline)
 		info := map[string]any{"store": cfg.Store, "depth": cfg.Depth, "max_live": cfg.MaxLive, "max_issued": cfg.MaxIssued, "resubscribe": cfg.Resub,
@@ -1411,9 +1414,6 @@ func coordRunCheck(t *testing.T, id string, mk func() coordOracle, rule string, 
 		}
 	}
 	rep.SetInfo("runs", runsInfo)
-	for _, cfg := range plan.NoMergeRuns {
-		coordCrossCheck(t, rep, cfg, mk, deadline)
-	}
 }
 
 func coordDeltasMs(cfg *coordCfg) []int {
